@@ -416,6 +416,19 @@ func (cx *evalCtx) ident(name string) (TV, error) {
 			return cx.constTV(c)
 		}
 	}
+	if cx.varsAfter && cx.fr != nil && cx.fr.fn != nil {
+		// a local variable of the function that is not (yet) defined on this return path: its value is arbitrary here, so
+		// the clause has to hold whatever it is (clauses normally guard such paths out by the result value)
+		if t := cx.run.eng.localVarType(cx.fr.fn, name); t != nil {
+			key := "undef:" + name
+			if v, ok := cx.st.vars[key]; ok {
+				return cx.valToTV(v, t)
+			}
+			tv := cx.run.freshOf(cx.st, "undef_"+name, t)
+			cx.st.vars[key] = tv
+			return tv, nil
+		}
+	}
 	return TV{}, fmt.Errorf("unknown name %q", name)
 }
 
